@@ -331,4 +331,69 @@ theorem decrypt_encrypt' (P : Prims) (hP : LawfulPrims P) (side : Side) (ak keyI
       · simp only [hti, List.length_append, hpl]; omega
       · simp only [hti, List.length_append, hpl]; omega
 
+/-- General raw path: `Cipher.Encrypt` given `MessageDataLen = len ≤ len(body)` (the caller's own extra
+bytes travel as additional padding) — the other side returns the same fields, `len`, and the body
+followed by the random padding, provided the total padding stays within 1024. -/
+theorem decrypt_encryptData' (P : Prims) (hP : LawfulPrims P) (side : Side) (ak keyId : Bytes)
+    (salt sid mid seq len : Nat) (payload rnd c : Bytes)
+    (hk : keyId.length = 8) (h1 : salt < 2 ^ 64) (h2 : sid < 2 ^ 64) (h3 : mid < 2 ^ 64) (h4 : seq < 2 ^ 32)
+    (hmod : len % 4 = 0) (hl : len < 2 ^ 31) (hle : len ≤ payload.length) (hextra : payload.length - len ≤ 757)
+    (he : encryptData P side ak keyId salt sid mid seq len payload rnd = .ok c) :
+    ∃ r rest, rnd = r :: rest ∧
+      c.length = 24 + 32 + payload.length + countPadding (32 + payload.length) r ∧
+      decrypt P side.flip ak keyId c =
+        .ok ⟨salt, sid, mid, seq, len,
+          payload ++ rest.take (countPadding (32 + payload.length) r)⟩ := by
+  unfold encryptData at he
+  cases rnd with
+  | nil => cases he
+  | cons r rest =>
+    refine ⟨r, rest, rfl, ?_⟩
+    simp only [encodeData_length] at he
+    split at he
+    · cases he
+    · rename_i hrest
+      simp only [Except.ok.injEq] at he
+      have hcp := countPadding_bounds (32 + payload.length) r
+      generalize hpadn : countPadding (32 + payload.length) r = padn at *
+      have hpl : (rest.take padn).length = padn := by simp; omega
+      generalize hpadv : rest.take padn = pad at *
+      generalize hptv : encodeData salt sid mid seq len payload ++ pad = padded at *
+      have hpadded : padded.length = 32 + payload.length + padn := by
+        rw [← hptv, List.length_append, encodeData_length, hpl]
+      have hmk := C06.impl_msgKey_length P hP ak padded side
+      generalize hmkv : C06.Impl.msgKey P ak padded side = mk at *
+      have hiv := C06.impl_keys_iv_length P hP ak mk side
+      have hal : padded.length % 16 = 0 := by omega
+      have hel := Ige.enc_length (P.aesEnc (C06.Impl.keys P ak mk side).1) (hP.aesEnc_len _) _ padded hiv hal
+      subst he
+      have hclen : (keyId ++ mk ++ Ige.enc (P.aesEnc (C06.Impl.keys P ak mk side).1) (C06.Impl.keys P ak mk side).2 padded).length
+          = 24 + padded.length := by
+        simp [hk, hmk, hel]; omega
+      refine ⟨by omega, ?_⟩
+      have hpt : plaintextOf P side.flip ak
+          (keyId ++ mk ++ Ige.enc (P.aesEnc (C06.Impl.keys P ak mk side).1) (C06.Impl.keys P ak mk side).2 padded) = padded := by
+        rw [plaintextOf_frame P _ ak keyId mk _ hk hmk, C06.flip_flip]
+        exact Ige.dec_enc _ _ (Ige.Inv.ofPrims P hP _) _ _ hiv hal
+      have hti : toInt32 len = (len : Int) := by
+        unfold toInt32; simp [hl]
+      rw [decrypt_ok_iff', hpt, C06.flip_flip]
+      refine ⟨by omega, ?_, by omega, ?_, ?_, ?_, ?_, ?_, ?_⟩
+      · rw [List.append_assoc, take_append_len _ _ 8 hk]
+      · have d8 : (keyId ++ mk ++ Ige.enc (P.aesEnc (C06.Impl.keys P ak mk side).1) (C06.Impl.keys P ak mk side).2 padded).drop 8
+            = mk ++ Ige.enc (P.aesEnc (C06.Impl.keys P ak mk side).1) (C06.Impl.keys P ak mk side).2 padded := by
+          rw [List.append_assoc, drop_append_len _ _ 8 hk]
+        rw [d8, take_append_len _ _ 16 hmk]; exact hmkv
+      · have : padded = encodeData salt sid mid seq len (payload ++ pad) := by
+          rw [← hptv]; simp [encodeData_def]
+        rw [this, decodeData_encodeData _ _ _ _ _ _ h1 h2 h3 h4 (by omega), hti]
+        have : ¬ ((len : Int) > ((payload ++ pad).length : Int)) := by
+          simp only [List.length_append]; omega
+        rw [if_neg this]
+      · simp only [hti]; omega
+      · simp only [hti]; omega
+      · simp only [hti, List.length_append, hpl]; omega
+      · simp only [hti, List.length_append, hpl]; omega
+
+
 end TdModel.C04
